@@ -551,7 +551,11 @@ func c17Names(t c17Table) []c17NameIn {
 			out = append(out, c17NameIn{s: e.Mod + ":" + e.Name, kind: "module:name", want: e.Num, wantOk: true})
 		}
 		out = append(out, c17NameIn{s: "c17-bogus:" + e.Name, kind: "foreign-prefix", want: e.Num, lenient: true})
-		if w := c17SwapCase(e.Name); !names[w] {
+		w := c17SwapCase(e.Name)
+		if i := strings.LastIndex(e.Name, ":"); i >= 0 { // enum "ipv4:unicast": change the case of the part castToEnumValue compares
+			w = e.Name[:i+1] + c17SwapCase(e.Name[i+1:])
+		}
+		if !names[w] {
 			out = append(out, c17NameIn{s: w, kind: "wrong-case"})
 		}
 		out = append(out, c17NameIn{s: "a:b:" + e.Name, kind: "two-prefixes"})
@@ -832,9 +836,9 @@ func (r *c17Run) tableOracle(pkg string, t c17Table) {
 			r.find("enum/not-bijective/zero-defined", fmt.Sprintf("the table defines Go value 0 (= UNSET) for YANG name %q (an enumeration value -1 is numbered value+1 = 0): the value can never be rendered, and setting it is indistinguishable from leaving the leaf unset", e.Name),
 				pkg, t.Type, &z, nil, "", nil)
 		}
-		if e.Name == "" || strings.Contains(e.Name, ":") || strings.Contains(e.Mod, ":") {
+		if util.StripModulePrefix(e.Name) == "" || strings.Contains(e.Mod, ":") || (e.Mod != "" && strings.Contains(e.Name, ":")) {
 			nm := e.Name
-			r.find("enum/bad-name", fmt.Sprintf("table entry %d has name %q module %q (empty or containing ':')", e.Num, e.Name, e.Mod), pkg, t.Type, nil, &nm, "", nil)
+			r.find("enum/bad-name", fmt.Sprintf("table entry %d has name %q module %q (empty after StripModulePrefix, ':' in the module, or ':' in an identity name)", e.Num, e.Name, e.Mod), pkg, t.Type, nil, &nm, "", nil)
 		}
 	}
 }
@@ -1053,8 +1057,8 @@ func c17EnumStream(rng *rand.Rand, n int, tier string, out string) (*Summary, er
 	}
 	var files []string
 
-	// ---- the compiled packages
-	for _, name := range reg.Names() {
+	// ---- the compiled packages (the private ones too: every generated enum table is checked)
+	for _, name := range reg.AllNames() {
 		if r.filter != nil && r.filter.Pkg != name {
 			continue
 		}
